@@ -294,16 +294,20 @@ Qed.
 
 Lemma do_exit_obs chains s e err : exists lg, snd (do_exit chains s e err) = RCalls lg.
 Proof.
-  unfold do_exit. destruct (get_ent s e) as [en|]; [|eauto]. destruct (e_exited en); [eauto|].
+  unfold do_exit. destruct (get_ent s e) as [en|]; [|cbn; eauto]. destruct (e_exited en); [cbn; eauto|].
   destruct (run_handlers (e_handlers en) []) as [lg1 pan1].
-  match goal with |- context [let '(nd2, lg2) := ?t in _] => destruct t as [nd2 lg2] end. cbn. eauto.
+  destruct pan1; [cbn; eauto|].
+  destruct (x_blk (if err =? 0 then ctxs s (e_ctx en) else set_err (ctxs s (e_ctx en)) err)); [cbn; eauto|].
+  match goal with |- context [run_done ?a ?b ?c ?d ?f] => destruct (run_done a b c d f) as [[nd lg] pan] end. cbn. eauto.
 Qed.
 
 (* after any Exit (handlers or statistic slots may panic): the entry is exited, and the invariant
    (its context is back in the pool, clean and unowned) holds *)
 Lemma do_exit_total chains s e err :
   Inv s ->
-  (exists lg, snd (do_exit chains s e err) = RCalls lg) /  Inv (fst (do_exit chains s e err)) /  (forall en, get_ent s e = Some en ->
+  (exists lg, snd (do_exit chains s e err) = RCalls lg) /\
+  Inv (fst (do_exit chains s e err)) /\
+  (forall en, get_ent s e = Some en ->
      exists en', get_ent (fst (do_exit chains s e err)) e = Some en' /\ e_exited en' = true).
 Proof.
   intros HI. split; [apply do_exit_obs|]. split; [apply do_exit_inv; exact HI|].
@@ -321,4 +325,59 @@ Lemma run_never_escapes chains ops s : ~ In REscaped (snd (run chains s ops)).
 Proof.
   revert s. induction ops as [|o r IH]; intros s; [cbn; auto|].
   rewrite run_step. cbn [snd]. intros [H|H]; [exact (step_never_escapes chains s o H)|exact (IH _ H)].
+Qed.
+
+(* ---------------------------------------------------------------------------------- *)
+(* the block error handed to the caller is never changed by later traffic                *)
+
+Lemma block_error_stable chains s res inb batch flag args chid pk c1 be lg ops :
+  Inv s -> snd (do_entry chains s res inb batch flag args chid pk) = RBlocked c1 be lg ->
+  let s1 := fst (do_entry chains s res inb batch flag args chid pk) in
+  nth (length (ret_view s)) (ret_view s1) berr0 = be /\
+  nth (length (ret_view s)) (ret_view (exec chains s1 ops)) berr0 = be /\
+  exists more, ret_view (exec chains s1 ops) = ret_view s ++ [be] ++ more.
+Proof.
+  intros HI Hob s1.
+  pose proof (do_entry_ret_view chains s res inb batch flag args chid pk c1 be lg HI Hob) as H1. fold s1 in H1.
+  assert (HI1 : Inv s1) by (apply do_entry_inv; exact HI).
+  destruct (ret_view_exec chains ops s1 HI1) as (more & H2).
+  split; [rewrite H1, app_nth2, Nat.sub_diag by lia; reflexivity|].
+  split.
+  - rewrite H2, H1, <- app_assoc, app_nth2, Nat.sub_diag by lia. reflexivity.
+  - exists more. rewrite H2, H1, <- app_assoc. reflexivity.
+Qed.
+
+(* ---------------------------------------------------------------------------------- *)
+(* admitted entries are live and (absent statistic-slot panics) carry the result "pass"  *)
+
+Lemma do_entry_entered_ent chains s res inb batch flag args chid pk e c lg :
+  Inv s -> snd (do_entry chains s res inb batch flag args chid pk) = REntered e c lg ->
+  let s' := fst (do_entry chains s res inb batch flag args chid pk) in
+  e = Z.of_nat (length (ents s)) /\
+  exists en, get_ent s' e = Some en /\ e_exited en = false /\ e_ctx en = c /\ e_chain en = chid /\ e_handlers en = [] /\
+    g_res en = res /\ g_inb en = inb /\ g_batch en = batch /\ g_start en = now s /\ x_flag (ctxs s' c) = flag /\
+    (no_stat_panic (chains chid) flag -> g_passed en = true).
+Proof.
+  intros HI Hob s'.
+  destruct (do_entry_new_ent chains s res inb batch flag args chid pk HI) as (en & Hn & _ & Hch & Hh & Hr & Hi & Hb & _ & Hst & Hm).
+  rewrite Hob in Hm. destruct Hm as (He & Hc & Hx & Hf & Hp). split; [exact He|].
+  exists en. subst e. unfold get_ent. destruct (Z.of_nat (length (ents s)) <? 0) eqn:E; [lia|].
+  rewrite Nat2Z.id. repeat split; auto.
+Qed.
+
+(* no panic, no block: the log, and the entry is live with result "pass" *)
+Lemma do_entry_pass_ent chains s res inb batch flag args chid pk :
+  Inv s ->
+  no_prep_panic (chains chid) flag -> Forall (c_benign flag) (checks (chains chid)) -> no_stat_panic (chains chid) flag ->
+  let s' := fst (do_entry chains s res inb batch flag args chid pk) in
+  let e := Z.of_nat (length (ents s)) in
+  exists c en, snd (do_entry chains s res inb batch flag args chid pk) =
+      REntered e c (map pcall (preps (chains chid)) ++ map ccall (checks (chains chid)) ++ scalls (rb_ctx res batch) None (stats (chains chid))) /\
+    get_ent s' e = Some en /\ e_exited en = false /\ g_passed en = true /\ e_chain en = chid /\ e_handlers en = [] /\
+    e_ctx en = c /\ x_flag (ctxs s' c) = flag.
+Proof.
+  intros HI Hp Hc Hs s' e.
+  destruct (do_entry_pass chains s res inb batch flag args chid pk Hp Hc Hs) as (c & Hob).
+  destruct (do_entry_entered_ent chains s res inb batch flag args chid pk _ _ _ HI Hob) as (_ & en & Hg & Hx & Hcx & Hch & Hh & _ & _ & _ & _ & Hf & Hpa).
+  exists c, en. repeat split; auto.
 Qed.
